@@ -513,10 +513,12 @@ def check_declared(rep: Report) -> None:
         rep.check("R05.5", f"{e.module}:{e.text}", e.ratio.sign() > 0, f"declared ratio {e.ratio!r} is not positive: conversion "
                   "would not preserve sign", e.where)
     for s in scales:
-        others = [e for e in ev.edges if e is not s and (e.a is s.a or e.b is s.a)]
+        # as the unit of either side, or as a *factor* of a compound side (`1 * Celsius * Day`): the factor planner matches
+        # that factor through the scale's offset hop
+        others = [e for e in ev.edges if e is not s and (e.a is s.a or e.b is s.a or s.a.uid in e.a.factors or s.a.uid in e.b.factors)]
         rep.check("R05.5", f"scale-leaf:{s.a.name}", not others,
                   f"scale unit {s.a.name!r} (non-zero offset) also appears in {[o.text for o in others][:2]}: a path between "
-                  "offset-free units could pass through an offset hop and zero would not map to zero", s.where)
+                  "offset-free units could pass through an offset hop and zero would not map to zero", others[0].where if others else s.where)
     rep.analysed["declared_edges"] = len(ev.edges)
     rep.analysed["scales"] = [s.a.name for s in scales]
     # R05.12: a base unit whose own dimension is the inverse of a fundamental one (a frequency unit: T^-1) is filed by _splat
@@ -854,6 +856,14 @@ def check_inline_paths(rep: Report, prog: Program, rid: str = "R05.10") -> None:
         and isinstance(elt.elts[2], ast.Name) and elt.elts[2].id == exponent
     rep.check(rid, "_inline_paths:own-ratio-and-exponent", ok,
               f"the plan step built for a rough step is {ast.unparse(elt)[:80]}: it must carry that step's own ratio and exponent", fi.where(elt))
+    if loop is None:
+        # a comprehension: nothing can be rebound or written afterwards; only a filter can drop a step
+        comp = getattr(elt, "_parent", None)
+        ifs = [i for g in getattr(comp, "generators", []) for i in g.ifs]
+        rep.ok(rid, "_inline_paths:ratio-unmodified", note="comprehension")
+        rep.check(rid, "_inline_paths:one-step-per-rough-step", not ifs,
+                  "the comprehension filters rough steps: a dropped step's ratio would have to be applied somewhere else", fi.where(elt))
+        rep.ok(rid, "_inline_paths:append-only", note="comprehension")
     if loop is not None:
         body_nodes = [x for st in loop.body if st is not unpack for x in ast.walk(st)]
         rebound = sorted({x.id for x in body_nodes if isinstance(x, ast.Name) and isinstance(x.ctx, ast.Store) and x.id in (ratio, exponent)})
